@@ -27,6 +27,9 @@ pub enum Lop {
 	Drop(u8),
 	ChildOpen,
 	ChildKill,
+	/// opener `id` opens while the in-process owner commits, flushes and closes exactly at the
+	/// moment the opener is about to take the directory lock
+	RaceOpen(u8),
 }
 
 fn lop_str(o: &Lop) -> String {
@@ -36,6 +39,7 @@ fn lop_str(o: &Lop) -> String {
 		Lop::Drop(i) => format!("drop{i}"),
 		Lop::ChildOpen => "child-open".into(),
 		Lop::ChildKill => "child-kill".into(),
+		Lop::RaceOpen(i) => format!("open{i}-while-owner-closes"),
 	}
 }
 
@@ -170,6 +174,54 @@ pub fn run_seq(ops: &[Lop]) -> Result<Option<(String, String)>, String> {
 						}
 					}
 				}
+				Lop::RaceOpen(id) => {
+					// the owner is the other in-process opener (the generator guarantees it)
+					let other = if *id == 1 { 2u8 } else { 1u8 };
+					let Some(mut wo) = openers.remove(&other) else {
+						continue;
+					};
+					let outcome: std::rc::Rc<std::cell::RefCell<Option<Result<(), String>>>> = Default::default();
+					let oc = outcome.clone();
+					surrealkv::verif::set_callback(
+						"lock:before-acquire",
+						Box::new(move || {
+							let r = (|| -> Result<(), String> {
+								wo.commit(&[Write::set(b"late", b"committed-just-before-close")], Durability::Immediate)?.map_err(|e| e)?;
+								wo.physical(crate::world::Phys::FlushAll)?;
+								wo.close()?;
+								Ok(())
+							})();
+							drop(wo);
+							*oc.borrow_mut() = Some(r);
+						}),
+					);
+					let mut w = World::attach(OptSet::base("L2"), &dir, &[]);
+					let r = w.open();
+					surrealkv::verif::clear_callbacks();
+					match outcome.borrow_mut().take() {
+						None => return Err(ctx("the opener never reached the lock point".into())),
+						Some(Err(e)) => return Err(ctx(format!("owner's commit/flush/close inside the race failed: {e}"))),
+						Some(Ok(())) => {}
+					}
+					match r {
+						Err(e) => return Ok(Some((format!("free-directory-refused:{}", crate::props::norm_msg(&e).chars().take(50).collect::<String>()), ctx(format!("the owner had closed before the opener tried the lock, but open failed: {e}"))))),
+						Ok(()) => match w.dump() {
+							Ok(d) if d.iter().any(|(k, _)| k == b"k") && d.iter().any(|(k, _)| k == b"late") => {}
+							other => return Ok(Some(("data-missing-after-racing-open".into(), ctx(format!("the opener won the directory right after the owner's close but does not see all committed data: {:?}", other.map(|d| d.iter().map(|(k, _)| String::from_utf8_lossy(k).to_string()).collect::<Vec<_>>())))))),
+						},
+					}
+					// and the directory must stay openable afterwards
+					w.close().map_err(|e| ctx(format!("close: {e}")))?;
+					if let Err(e) = w.open() {
+						return Ok(Some(("reopen-fails-after-racing-open".into(), ctx(format!("{e}")))));
+					}
+					match w.dump() {
+						Ok(d) if d.iter().any(|(k, _)| k == b"late") => {}
+						other => return Ok(Some(("data-missing-after-racing-open".into(), ctx(format!("after a further reopen: {:?}", other.map(|d| d.len())))))),
+					}
+					owner = Some(format!("opener{id}"));
+					openers.insert(*id, w);
+				}
 				Lop::ChildKill => {
 					if let Some(c) = child.take() {
 						drop(c); // SIGKILL + wait
@@ -204,6 +256,16 @@ fn gen(maxlen: usize) -> Vec<Vec<Lop>> {
 				rec(maxlen, cur, if id == 1 { o1 || won } else { o1 }, if id == 2 { o2 || won } else { o2 }, ch, out);
 				cur.pop();
 			}
+		}
+		if o1 && !o2 && !ch {
+			cur.push(Lop::RaceOpen(2));
+			rec(maxlen, cur, false, true, ch, out);
+			cur.pop();
+		}
+		if o2 && !o1 && !ch {
+			cur.push(Lop::RaceOpen(1));
+			rec(maxlen, cur, true, false, ch, out);
+			cur.pop();
 		}
 		if o1 {
 			for op in [Lop::Close(1), Lop::Drop(1)] {
@@ -306,6 +368,8 @@ pub fn replay(r: &J) -> i32 {
 			"drop1" => Lop::Drop(1),
 			"drop2" => Lop::Drop(2),
 			"child-open" => Lop::ChildOpen,
+			"open1-while-owner-closes" => Lop::RaceOpen(1),
+			"open2-while-owner-closes" => Lop::RaceOpen(2),
 			_ => Lop::ChildKill,
 		})
 		.collect();
